@@ -98,12 +98,14 @@ def build(cfg):
     return r, b, b.formulate()
 
 
-def random_cfg(rng, name, max_align_cost=True):
+def random_cfg(rng, name, max_align_cost=True, unaligned=False):
     r = _load(name)
     nf = len(r.final_state)
     ids = sorted(r.final_state)
     aligns = ["none", "none", "aa"] + (["dpd1", "dpd2", "dpd3"] if nf == 3 else [])
     al = rng.choice(aligns)
+    if unaligned:
+        al = "none"
     if al.startswith("dpd"):
         ids = [1, 2, 3]
     stable = rng.choice([None, None, [], [rng.choice(ids)], list(ids)])
